@@ -234,14 +234,8 @@ Definition check_flight_conc (c : flight_conc_case) : list string :=
 Record offline_case := { of_req : string; of_entries : list dentry; of_picked : string }.
 Fixpoint find_entry (n : string) (l : list dentry) : option dentry :=
   match l with [] => None | e :: t => if String.eqb (de_name e) n then Some e else find_entry n t end.
-(* the choice the source of this run makes: among all entries (the code today), or — with
-   fixes/C19-F5.patch — among the names that do not end in ".tmp", i.e. the advertised ones *)
-Definition code_offline_pick : option (list dentry -> option dentry) :=
-  match offline_filter with
-  | [] => Some pick_newest
-  | [f] => if String.eqb f "skip-suffix:.tmp" then Some pick_newest_adv else None
-  | _ => None
-  end.
+(* the choice the source of this run makes (advertised names only since fix c5d0145; all entries before) *)
+Definition code_offline_pick : option (list dentry -> option dentry) := pick_of_filter offline_filter.
 Definition check_offline (c : offline_case) : list string :=
   match code_offline_pick with None => ["mismatch:offline-filter-not-recognised"] | Some _ => [] end ++
   let m := match code_offline_pick with Some f => f (of_entries c) | None => None end in
